@@ -4,6 +4,8 @@ import (
 	"encoding/json"
 	"fmt"
 	"os"
+	"reflect"
+	"runtime"
 	"sort"
 	"strings"
 	"time"
@@ -45,6 +47,38 @@ func VInstallHooks() {
 			s.Point(name)
 		}
 	}
+	verifhook.AccessHandler = func(obj interface{}, field string, write bool) {
+		if s := vsync.Active(); s != nil {
+			s.AccessPoint(field+"@"+VIdentity(obj), write, vCaller())
+		}
+	}
+}
+
+// VIdentity returns the identity of the object behind a hook argument (maps and pointers by address).
+func VIdentity(obj interface{}) string {
+	v := reflect.ValueOf(obj)
+	switch v.Kind() {
+	case reflect.Map, reflect.Ptr, reflect.Slice, reflect.Chan, reflect.Func, reflect.UnsafePointer:
+		return fmt.Sprintf("%x", v.Pointer())
+	}
+	return fmt.Sprintf("%v", obj)
+}
+
+func vCaller() string {
+	for skip := 3; skip < 8; skip++ {
+		_, file, line, ok := runtime.Caller(skip)
+		if !ok {
+			break
+		}
+		if strings.Contains(file, "verifhook") || strings.Contains(file, "zz_verif_sched") {
+			continue
+		}
+		if i := strings.LastIndex(file, "/internal/"); i >= 0 {
+			file = file[i+1:]
+		}
+		return fmt.Sprintf("%s:%d", file, line)
+	}
+	return "?"
 }
 
 type opResult struct {
@@ -415,6 +449,19 @@ func vRunSched(w *VWorld, sc *SchedScenario, prefix []int, horizon int) *vsync.E
 	if !explain(nil, make([]int, len(sc.Threads))) {
 		rs, _ := json.Marshal(results)
 		x.Viol = append(x.Viol, fmt.Sprintf("no total order of the operations consistent with each client's order explains the results %s and the final state %s (%s)", rs, impl, why))
+	} else if sc.Oracle == "cat" {
+		// C19: at the quiescent end the catalogue must agree with the datasets; distinct-id counts do not depend on the order
+		m := cloneWorld(order)
+		hh := &VHist{W: w, Tag: h.Tag, M: m}
+		chk := &VCheck{H: hh}
+		chk.checkCatalogue(allNames, map[string]int{}, map[string][]string{})
+		for _, v := range chk.Viol {
+			clause := v.Key
+			if i := strings.Index(clause, "|"); i >= 0 {
+				clause = clause[:i]
+			}
+			x.Viol = append(x.Viol, clause+"::"+v.What)
+		}
 	}
 	return x
 }
